@@ -67,4 +67,9 @@ def pick_len(rng, L, hi):
 
 
 def float_tensor(nprng, shape, dyn=1.0):
-    return nprng.standard_normal(shape) * dyn
+    """zero-mean data of scale `dyn`; about one tensor in five sits on a large constant offset (image data is not
+    zero-mean: an 8-bit picture is 128 +- 50), so that anything which is only right for zero-mean input shows"""
+    x = nprng.standard_normal(shape) * dyn
+    if nprng.random() < 0.2:
+        x = x + 40.0 * dyn
+    return x
